@@ -378,7 +378,37 @@ fn run_tuple(c: &mut Ctx, m: &'static Merchant, template: &Trace, label: &str, c
         match r {
             Some((true, c1)) if c1 == c0 => c.count("positive_controls_accepted", 1),
             Some((true, _)) => return c.inconclusive("C01: challenge changed between draft and final proof with identical first messages"),
-            Some((false, _)) => return c.inconclusive("C01: positive control (shadow prover, true statement) was rejected — cannot observe"),
+            Some((false, _)) => {
+                // The shadow prover proves the agreed message as this harness reads it. If the library's own
+                // customer is accepted for the same tuple, look at what got signed: a closing signature that
+                // the customer accepts but that is not on the agreed message (by the reference) means the two
+                // sides established something else than what was agreed.
+                if let Ok((mut s, proof)) = crate::session::Sess::request(m, &mut rng, cid, cust, merch, &a.context) {
+                    if let Ok(Some(sig)) = s.m_initialize(&mut rng, cust, merch, &proof, &a.context) {
+                        if s.c_complete(&sig) == Ok(true) {
+                            if let crate::session::Stage::Inactive(i) = &s.stage {
+                                if let Ok(t) = trace(i) {
+                                    let g = |p: &str| t.fget(p).ok();
+                                    let s1 = g("close_state_signature/sigma1").and_then(|b| crate::refs::g1(&b));
+                                    let s2 = g("close_state_signature/sigma2").and_then(|b| crate::refs::g1(&b));
+                                    let lock = g("state/revocation_pair/lock").and_then(|b| crate::refs::sc(&b));
+                                    if let (Some(s1), Some(s2), Some(lock)) = (s1, s2, lock) {
+                                        c.eval();
+                                        if !ps_verify_ref(&m.pk, &s1, &s2, &a.close(lock)) {
+                                            c.violation(
+                                                "C01 established-signature-is-not-on-the-agreed-message route=library-customer",
+                                                json!({"agreed": agreed_json(&a), "note": "the shadow prover's proof of the agreed message was refused, the library's customer was accepted, and its closing signature does not verify on (channel id, close tag, lock, balances) as agreed"}),
+                                            );
+                                            return;
+                                        }
+                                    }
+                                }
+                            }
+                        }
+                    }
+                }
+                return c.inconclusive("C01: positive control (shadow prover, true statement) was rejected — cannot observe");
+            }
             None => return,
         }
     }
